@@ -676,6 +676,17 @@ class Exec:
                 r = self.str_eq(x, y)
                 return z3.simplify(r if o == '==' else z3.Not(r))
             if o == '+':
+                if y.num is not None and y.num[1] == '16z':      # hex digits with leading zeros trimmed: "" for zero
+                    if self.must(st, y.num[2] != 0):
+                        y = Str(num=(y.num[0], 16, y.num[2]))
+                    elif self.must(st, y.num[2] == 0):
+                        y = S('')
+                    else:
+                        raise Unsupported('concatenation with zero-trimmed hex digits whose value may or may not be zero')
+                if x.num is None and x.parts is None and y.num is not None and y.num[0] == '' and y.num[1] == 16:
+                    zx = z3.simplify(x.z)
+                    if z3.is_string_value(zx) and zx.as_string() == '0x':
+                        return Str(num=('0x', 16, y.num[2]))
                 if x.num is not None or y.num is not None or x.parts is not None or y.parts is not None:
                     return Str(parts=self.str_parts(x) + self.str_parts(y))
                 return Str(z3.Concat(self.zstr(x), self.zstr(y)))
@@ -809,7 +820,10 @@ class Exec:
             if x.num is not None and y.num is not None:
                 return z3.And(z3.BoolVal(x.num[0] == y.num[0] and x.num[1] == y.num[1]), x.num[2] == y.num[2])
             other = y if x.num is not None else x
+            me = x if x.num is not None else y
             oz = z3.simplify(other.z)
+            if me.num[1] == '16z' and z3.is_string_value(oz) and oz.as_string() == '':
+                return me.num[2] == 0
             if z3.is_string_value(oz) and go_number_like(oz.as_string()) is False:
                 return z3.BoolVal(False)       # e.g. comparison with "" or a non-numeric literal
             raise Unsupported('comparison of a numeric string with %s' % oz)
